@@ -3,10 +3,11 @@
    constants actually in effect so the driver can tell whether the hook is present in the tree under test.
 
    Input (stdin), one case per line, numbers in decimal:
-     D <id> <exp> <n> <item>*n <nd> <byte>*nd <t0..t7>
+     D <id> <exp> <n> <item>*n <nd> <byte>*nd <nh> <byte>*nh <t0..t7>
          decode case from the model.  items 0..255 are bytes; 256+i+8*x is byte i of the check hash of the
-         given data, xor x.  exp=0: the decoder must report failure.  exp=1: it must report success iff the
-         8 trailer items t0..t7 (concretised) equal the hash, and then deliver exactly the data.
+         nh hash-basis bytes (nh=-1: of the data), xor x.  exp=0: the decoder must report failure.  exp=1: it
+         must report success iff the 8 trailer items t0..t7 (concretised) equal the hash of the data, and then
+         deliver exactly the data.
          Every case is run with two fill patterns of the freshly allocated decoder state.
      R <id> <n> <byte>*n
          round trip: encode, check trailer, decode, compare; prints the encoding for the spec-side parser.
@@ -86,21 +87,25 @@ static void out_hex (const uint8_t *p, size_t n) {
 static long next_num (char **pp) { return strtol (*pp, pp, 10); }
 
 static void case_D (char *p) {
-  long id = next_num (&p), exp = next_num (&p), n = next_num (&p), nd, i;
+  long id = next_num (&p), exp = next_num (&p), n = next_num (&p), nd, nh, i;
   long *items = malloc (sizeof (long) * (n + 1)), trl[8];
-  uint8_t *data, *s = malloc (n + 1), hb[8];
+  uint8_t *data, *hd, *s = malloc (n + 1), hb[8], hr[8];
   uint64_t h;
   int want;
   for (i = 0; i < n; i++) items[i] = next_num (&p);
   nd = next_num (&p); data = malloc (nd + 1);
   for (i = 0; i < nd; i++) data[i] = (uint8_t) next_num (&p);
+  nh = next_num (&p); hd = malloc (nh > 0 ? nh : 1);
+  for (i = 0; i < nh; i++) hd[i] = (uint8_t) next_num (&p);
   for (i = 0; i < 8; i++) trl[i] = next_num (&p);
   h = chain_hash (data, nd);
+  for (i = 0; i < 8; i++) hr[i] = (h >> i * 8) & 0xff;
+  if (nh >= 0) h = chain_hash (hd, nh);
   for (i = 0; i < 8; i++) hb[i] = (h >> i * 8) & 0xff;
 #define CONC(it) ((it) < 256 ? (uint8_t) (it) : (uint8_t) (hb[((it) - 256) % 8] ^ (((it) - 256) / 8)))
   for (i = 0; i < n; i++) s[i] = CONC (items[i]);
   want = exp;
-  if (exp) for (i = 0; i < 8; i++) if (CONC (trl[i]) != hb[i]) want = 0;
+  if (exp) for (i = 0; i < 8; i++) if (CONC (trl[i]) != hr[i]) want = 0;
   for (int f = 0; f < 2; f++) {
     int fill = f == 0 ? 0x00 : 0xA5, ok = do_decode (s, n, fill);
     if (ok != want) outf ("FAIL %ld fill=%02x verdict: decoder ok=%d expected %d\n", id, fill, ok, want);
@@ -108,7 +113,7 @@ static void case_D (char *p) {
       outf ("FAIL %ld fill=%02x output: %zu bytes differ from the expected %ld\n", id, fill, wr_b.len, nd);
   }
   outf ("DV %ld %d\n", id, want);
-  free (items); free (s); free (data);
+  free (items); free (s); free (data); free (hd);
 }
 
 static uint8_t *read_bytes (char **pp, long n) {
